@@ -18,3 +18,4 @@ def run(ck):
     alloc.r9_failure_is_atomic(ck, P)      # C15-R9: a failed setter must not leave the filter kind ahead of its parameter block (the block is then read with the wrong layout)
     filt.r1_layout(ck, P)                # C18-R1: the generator writes each table within the part of the block that was sized for it
     filt.r12_param_block_validated(ck, P, 'C04-R12')   # the fetchers read the kernel out of the library's own copy of the block
+    geometry.r13_empty_image_never_repeated(ck, P)
